@@ -98,6 +98,13 @@ def observe_val(sh: Shadow, i: int, c: int, key: tuple[int, str], val: str, *, h
                            f"snapshot nor one of its own additions ({how})")
 
 
+def canon_ev(e: str) -> str:
+    """`ev <ctx> [t,…] name desc kind` with the type ids sorted (their order inside an event is nobody's promise)."""
+    import re
+
+    return re.sub(r"\[([0-9,]*)\]", lambda m: "[" + ",".join(sorted(m.group(1).split(","), key=lambda x: int(x) if x else -1)) + "]", e, count=1)
+
+
 def expect_events(sh: Shadow, i: int, r: dict[str, Any], expected: list[str] | None, c: int | None) -> None:
     evs = r["ev"]
     for e in evs:
@@ -105,7 +112,7 @@ def expect_events(sh: Shadow, i: int, r: dict[str, Any], expected: list[str] | N
             sh.flag("C18,C10", f"step {i}: event with wrong source/topic/time: {e}")
         if c is not None and not e.startswith(f"ev {c} "):
             sh.flag("C18,C02", f"step {i}: event dispatched on another context than {c}: {e}")
-    if expected is not None and evs != expected:
+    if expected is not None and evs != [canon_ev(e) for e in expected]:
         sh.flag("C18", f"step {i}: resource_added events {evs}, expected {expected}")
 
 
